@@ -31,6 +31,12 @@ impl InputPlugin for GridSearchPlugin {
                 let mut multiset_indices: Vec<Vec<usize>> = vec![];
                 for (k, v) in map {
                     if let Some(v) = v.as_array() {
+                        if v.is_empty() {
+                            return Err(InputPluginError::InputPluginFailed(format!(
+                                "grid search field '{}' is an empty array, which leaves no query to run",
+                                k
+                            )));
+                        }
                         keys.push(k.to_string());
                         multiset_input.push(v.to_vec());
                         let indices = (0..v.len()).collect();
